@@ -20,7 +20,9 @@ ASSUMPTIONS = [
     "bounded claim: every reference instant with year in [5, 9995] (so that a +-1 year / +-7 day step and the "
     "previous/next leap year stay representable; the ends of the range are C02's subject), every day number / HH:MM / two-digit year, each of the "
     "three PREFER_DATES_FROM values, PREFER_DAY_OF_MONTH/PREFER_MONTH_OF_YEAR at their defaults, TIMEZONE='UTC' "
-    "(time-only form also under fixed offsets), English templates only",
+    "(time-only form also under fixed offsets and under tz-database zones with transitions, reference year 2021, wall-clock "
+    "times that exist exactly once on the reference's date and its neighbours; pytz's own code runs symbolically, the oracle "
+    "is a zoneinfo-derived table), English templates only",
     "two-digit-year forms: reference years 1970-2067 as the property states; Feb 29 with a two-digit year is excluded "
     "(no such date may exist in the century the preference selects); 'D Month' with current_period excludes Feb 29 "
     "outside leap reference years",
@@ -97,10 +99,27 @@ def h_weekday(wd, pref, abbr=False):
     return fn
 
 
+FID_LD = "C09-time-only-local-date"
+
+
+def _strict_time(pref, keep, uo, ur, b, same_day):
+    """the property's clauses for a time-only string, (uo, ur) = the result as a UTC instant"""
+    le = dates.z_lex_le(uo, ur, b._ord(), b._us_of_day())
+    ge = dates.z_lex_le(b._ord(), b._us_of_day(), uo, ur)
+    later_after = dates.z_lex_lt(b._ord(), b._us_of_day(), uo + 1, ur)
+    earlier_before = dates.z_lex_lt(uo - 1, ur, b._ord(), b._us_of_day())
+    if pref == "past":
+        return z3.And(keep, le, later_after)
+    if pref == "future":
+        return z3.And(keep, ge, earlier_before)
+    return z3.And(keep, same_day)
+
+
 def h_time(pref, tz="UTC"):
     off = 0 if tz == "UTC" else _off_s(tz)
 
     def fn():
+        from . import zones
         b = C.sym_base("b", YMIN, YMAX)
         t = C.time_fields("t", "HM")
         s = tmpl([("H", 2), ":", ("M", 2)], t)
@@ -111,22 +130,79 @@ def h_time(pref, tz="UTC"):
             return C.outcome(False, wit, "none")
         keep = z3.And(_zi(do.hour) == _zi(t["H"]), _zi(do.minute) == _zi(t["M"]), _zi(do.second) == 0,
                       _zi(do.microsecond) == 0, do.tzinfo is None)
-        # the written time is wall-clock time in TIMEZONE; the reference instant is UTC.  Candidate: the written time
-        # on the reference's calendar date; past: one day earlier if the candidate (as a UTC instant) is after the
-        # reference; future: one day later if it is before; current_period: the reference day.
+        # the written time is wall-clock time in TIMEZONE; the reference instant is UTC
+        uo, ur = zones._shift(do._ord(), do._us_of_day(), -off)
+        lo, _lr = zones._shift(b._ord(), b._us_of_day(), off)            # the reference's calendar date in TIMEZONE
+        strict = _strict_time(pref, keep, uo, ur, b, do._ord() == lo)
+        # what the code does (candidate on the reference's UTC date, moved one day when on the wrong side): equals the
+        # nearest occurrence whenever the reference's date in TIMEZONE is its UTC date
         ctod = z_tod_hm(t) - off * 1000000
         cc = z3.If(ctod < 0, -1, z3.If(ctod >= dates.K_DAY, 1, 0))
-        co, cr = b._ord() + cc, ctod - cc * dates.K_DAY          # candidate as UTC pair
+        co, cr = b._ord() + cc, ctod - cc * dates.K_DAY
         after = dates.z_lex_lt(b._ord(), b._us_of_day(), co, cr)
         before = dates.z_lex_lt(co, cr, b._ord(), b._us_of_day())
-        if pref == "past":
-            k = z3.If(after, -1, 0)
-        elif pref == "future":
-            k = z3.If(before, 1, 0)
-        else:
-            k = z3.IntVal(0)
+        k = z3.If(after, -1, 0) if pref == "past" else (z3.If(before, 1, 0) if pref == "future" else z3.IntVal(0))
         e = dates.SDateTime(b.year, b.month, b.day, _trusted=True)._shift(dates.STimedelta(days=core.mkint(k)))
-        ok, kn = _with_known([keep], do, e, b)
+        code_rule, kn = _with_known([keep], do, e, b)
+        local_region = lo != b._ord()
+        month_region = _zi(e.month) != _zi(b.month)
+        if off != 0 and _is_open(FID_LD):
+            ok = z3.And(code_rule, z3.Or(local_region, month_region, strict))
+            kn = kn + [(FID_LD, z3.And(local_region, z3.Not(strict)))]
+        elif _is_open(FID):
+            ok = z3.And(code_rule, z3.Or(month_region, strict))
+        else:
+            ok = strict
+        return C.outcome(ok, wit, "parsed", known=kn)
+    return fn
+
+
+def h_time_dst(pref, zone, y0=2021, y1=2021):
+    """time-only string with a tz-database TIMEZONE that has transitions (pytz's utcoffset/localize run symbolically)"""
+    from . import zones
+
+    def fn():
+        b = C.sym_base("b", y0, y1)
+        t = C.time_fields("t", "HM")
+        s = tmpl([("H", 2), ":", ("M", 2)], t)
+        wit = dict(C.base_witness(b), tH=t["H"], tM=t["M"])
+        tab = zones.table(zone, y0 - 1, y1 + 1)
+        # only wall-clock times that exist exactly once on the reference's date and its neighbours (property's premise)
+        r = z_tod_hm(t)
+        for k in (-2, -1, 0, 1, 2):
+            ok, _, _, _ = zones.z_local_to_utc(tab, b._ord() + k, r)
+            core.assume(mkbool(ok))
+        dd = C.api(s, languages=["en"], settings=_settings(b, pref, {"TIMEZONE": zone}))
+        do = dd.date_obj
+        if do is None:
+            return C.outcome(False, wit, "none")
+        keep = z3.And(_zi(do.hour) == _zi(t["H"]), _zi(do.minute) == _zi(t["M"]), _zi(do.second) == 0,
+                      _zi(do.microsecond) == 0, do.tzinfo is None)
+        _, uo, ur, _ = zones.z_local_to_utc(tab, do._ord(), do._us_of_day())
+        _, lo_, lr_, _ = zones.z_local_to_utc(tab, do._ord() + 1, do._us_of_day())
+        _, eo_, er_, _ = zones.z_local_to_utc(tab, do._ord() - 1, do._us_of_day())
+        le = dates.z_lex_le(uo, ur, b._ord(), b._us_of_day())
+        ge = dates.z_lex_le(b._ord(), b._us_of_day(), uo, ur)
+        later_after = dates.z_lex_lt(b._ord(), b._us_of_day(), lo_, lr_)
+        earlier_before = dates.z_lex_lt(eo_, er_, b._ord(), b._us_of_day())
+        boff = zones.z_offset_at_utc(tab, b._ord(), b._us_of_day())
+        blo, _ = zones._shift(b._ord(), b._us_of_day(), boff)           # the reference's calendar date in the zone
+        if pref == "past":
+            strict = z3.And(keep, le, later_after)
+        elif pref == "future":
+            strict = z3.And(keep, ge, earlier_before)
+        else:
+            strict = z3.And(keep, do._ord() == blo)
+        near = z3.And(keep, do._ord() - b._ord() >= -1, do._ord() - b._ord() <= 1)
+        local_region = blo != b._ord()
+        month_region = z3.Or(_zi(b.day) == 1, _zi(b.day) == dates.z_dim(_zi(b.year), _zi(b.month)))
+        kn = []
+        ok = strict
+        if _is_open(FID_LD):
+            ok = z3.Or(ok, z3.And(local_region, near))
+            kn.append((FID_LD, z3.And(local_region, z3.Not(strict))))
+        if _is_open(FID):
+            ok = z3.Or(ok, z3.And(month_region, keep, z3.Or(_zi(do.month) == _zi(b.month), _zi(do.month) == 12)))
         return C.outcome(ok, wit, "parsed", known=kn)
     return fn
 
@@ -242,6 +318,10 @@ def tasks(tier, seed):
     for tz in (["+0530"] if quick else ["+0530", "-0800", "+1245", "-0330"]):
         for p in ("past", "future"):
             add("time:%s:%s" % (p, tz), "h_time", {"pref": p, "tz": tz})
+    dz = ["America/New_York", "Europe/Paris", "Asia/Kolkata", "Australia/Lord_Howe"]
+    for j, z in enumerate(dz if not quick else [dz[seed % len(dz)]]):
+        for p in (("past", "future") if quick else PREFS):
+            add("time-dst:%s:%s" % (p, z), "h_time_dst", {"pref": p, "zone": z}, 240)
     months = sorted({2, seed % 12 + 1, (seed + 7) % 12 + 1}) if quick else range(1, 13)
     for mi in months:
         for p in PREFS:
@@ -265,8 +345,10 @@ def build_spec(task, viol):
     st = {"PREFER_DATES_FROM": a["pref"], "TIMEZONE": a.get("tz", "UTC"), "RELATIVE_BASE": C.base_from_witness(w)}
     if fn == "h_weekday":
         s = (C.EN_DAY3 if a.get("abbr") else C.EN_DAYS)[a["wd"]].capitalize()
-    elif fn == "h_time":
+    elif fn in ("h_time", "h_time_dst"):
         s = "%02d:%02d" % (w["tH"], w["tM"])
+        if fn == "h_time_dst":
+            st["TIMEZONE"] = a["zone"]
     elif fn == "h_month":
         s = C.EN_MONTHS[a["mi"] - 1].capitalize()
     elif fn == "h_daymonth":
@@ -306,6 +388,29 @@ def native_check(spec):
             exp = _dt.datetime.combine(b.date() - _dt.timedelta(days=(b.weekday() - wd) % 7), _dt.time())
         bad = got != exp
         out.update(expected=exp.isoformat())
+    elif fn == "h_time_dst":
+        from . import zones
+        tab = zones.table(a["zone"], a.get("y0", 2021) - 1, a.get("y1", 2021) + 1)
+        keep = (got.hour, got.minute, got.second, got.microsecond) == (w["tH"], w["tM"], 0, 0)
+        day = _dt.timedelta(days=1)
+        ok0, u, _ = zones.local_to_utc_native(tab, got)
+        ok1, up, _ = zones.local_to_utc_native(tab, got + day)
+        ok2, um, _ = zones.local_to_utc_native(tab, got - day)
+        if not (ok0 and ok1 and ok2):
+            return {"violates": False, "unrealizable": True, "detail": "%s: gap/ambiguous wall clock near the result" % desc}
+        if pref == "past":
+            bad = not (keep and u <= b and up > b)
+        elif pref == "future":
+            bad = not (keep and u >= b and um < b)
+        else:
+            bad = not (keep and got.date() == b.date())
+        exp_month_reset = (pref == "past" and b.day == 1) or (pref == "future" and (b + day).month != b.month)
+        out.update(expected="(nearest %s occurrence of %02d:%02d %s)" % (pref, w["tH"], w["tM"], a["zone"]))
+        if bad and exp_month_reset and keep and got.month in (b.month, 12):
+            out.update(month_reset=True)
+        boff = zones.offset_at_utc_native(tab, b)
+        if bad and keep and (b + _dt.timedelta(seconds=boff)).date() != b.date() and abs((got.date() - b.date()).days) <= 1:
+            out.update(local_date=True)
     elif fn == "h_time":
         off = _dt.timedelta(seconds=0 if a.get("tz", "UTC") == "UTC" else _off_s(a["tz"]))
         keep = (got.hour, got.minute, got.second, got.microsecond) == (w["tH"], w["tM"], 0, 0)
@@ -325,6 +430,12 @@ def native_check(spec):
         if pref == "future" and cand - off < b:
             cand += day
         out.update(expected=cand.isoformat())
+        if bad and keep and (b + off).date() != b.date() and got == cand:
+            out.update(local_date=True)
+        if pref == "current_period":
+            bad = not (keep and got.date() == (b + off).date())
+            if bad and keep and got.date() == b.date():
+                out.update(local_date=True)
     elif fn == "h_month":
         keep = got.month == a["mi"] and res["period"] == "month"
         bad = not (keep and (got <= b if pref == "past" else got >= b if pref == "future" else got.year == b.year))
@@ -343,6 +454,11 @@ def native_check(spec):
 def classify_known(spec, verdict, known):
     """weekday-only / time-only strings whose correct answer lies in another month than the reference: the code resets
     the month to the reference month (December if that day does not exist) — finding C09-month-reset"""
+    ids0 = {k["id"] for k in known}
+    if verdict.get("local_date") and FID_LD in ids0:
+        return FID_LD
+    if spec["fn"] == "h_time_dst":
+        return "C09-month-reset" if verdict.get("month_reset") and "C09-month-reset" in ids0 else None
     if spec["fn"] not in ("h_weekday", "h_time") or "expected" not in verdict or "got" not in verdict:
         return None
     ids = {k["id"] for k in known}
